@@ -279,6 +279,13 @@ m("resolvepos-continue-form", ["C20"], "keep", "token/file.go",
   "		if linePos <= pos {\n			column = int(pos - linePos)\n			return\n		}",
   "		if linePos > pos {\n			continue\n		}\n		column = int(pos - linePos)\n		return")
 
+
+m("compound-guard-two-ifs", ["C02"], "keep", "parser.go",
+  "			if !(c.Op == op && c.AllOrDistinct == allOrDistinct) {\n				p.panicfAtToken(&opTok, \"all set operator at the same level must be the same, or wrap (...)\")\n			}",
+  "			if c.Op != op {\n				p.panicfAtToken(&opTok, \"all set operator at the same level must be the same, or wrap (...)\")\n			}\n			if c.AllOrDistinct != allOrDistinct {\n				p.panicfAtToken(&opTok, \"all set operator at the same level must be the same, or wrap (...)\")\n			}")
+m("compound-guard-op-only", ["C02"], "break", "parser.go",
+  "			if !(c.Op == op && c.AllOrDistinct == allOrDistinct) {", "			if c.Op != op {")
+
 def sh(cmd, cwd=None):
     return subprocess.run(cmd, shell=True, cwd=cwd, capture_output=True, text=True)
 
